@@ -19,7 +19,7 @@
 From Coq Require Import ZArith List String Lia.
 From LV Require Import Base.Conc Base.Events Base.Lin Spec.Specs.
 From LV Require Import Model.SplitList Proofs.MichaelListProofs Proofs.SplitListOrdArith Proofs.SplitListLinSim Proofs.SplitListLinOps
-                       Proofs.SplitListLinThm Proofs.SplitListOrdReach Proofs.SplitListOrdGrowth.
+                       Proofs.SplitListLinThm Proofs.SplitListOrdReach Proofs.SplitListOrdGrowth Proofs.SplitListLinKeyThm.
 Import ListNotations.
 Local Open Scope Z_scope.
 
@@ -118,6 +118,23 @@ Theorem C14_split_linearizable :
 Proof. exact split_linearizable. Qed.
 Print Assumptions C14_split_linearizable.
 
+(** the same in terms of the CLIENT keys: [client_hist tr] is the history insert k -> SInsert k, erase k -> SErase k,
+    contains k -> SContains k (k as the client passed it) with the boolean results; distinct keys 0..255 have distinct
+    split-order positions, so the annotated trace above, keys renamed back, is valid for it *)
+Theorem C14_split_keys_linearizable_lp :
+  forall (hs : list Z) (cap : nat), Z.of_nat cap <= 2 ^ 62 ->
+  forall fuel ths c, ops_ok ths -> Conc.reach (SplitList.init_cfg cap hs fuel ths) c ->
+    exists atr, lp_valid SetSpec atr /\ erase atr = client_hist (Conc.trace c).
+Proof. exact split_keys_linearizable_lp. Qed.
+Print Assumptions C14_split_keys_linearizable_lp.
+
+Theorem C14_split_keys_linearizable :
+  forall (hs : list Z) (cap : nat), Z.of_nat cap <= 2 ^ 62 ->
+  forall fuel ths c, ops_ok ths -> Conc.reach (SplitList.init_cfg cap hs fuel ths) c ->
+    linearizable SetSpec (client_hist (Conc.trace c)).
+Proof. exact split_keys_linearizable. Qed.
+Print Assumptions C14_split_keys_linearizable.
+
 (** non-vacuity: the 3-thread run of Properties_C14 (the table grows from 2 to 4 buckets, buckets 1 and 3 get initialised,
     bucket 3 after its parent 1) satisfies the hypotheses; its history has 12 events (6 completed operations) and the
     verified checker accepts it; bucket 3's dummy is reachable from bucket 1's dummy *)
@@ -128,12 +145,14 @@ Example C14_split_lin_nonvacuous :
   Conc.reach (SplitList.init_cfg 32 [0;1;2;3;4;5]%Z 80 ths) c /\
   List.length (split_hist [0;1;2;3;4;5]%Z (Conc.trace c)) = 12%nat /\
   lincheck SetSpec (split_hist [0;1;2;3;4;5]%Z (Conc.trace c)) = true /\
+  lincheck SetSpec (client_hist (Conc.trace c)) = true /\
   table (Conc.shared c) 3 <> 0%nat /\ parent_bucket 3 = 1%nat.
 Proof.
-  cbv zeta. split; [|split; [|split; [|split; [|split; [|split]]]]].
+  cbv zeta. split; [|split; [|split; [|split; [|split; [|split; [|split]]]]]].
   - repeat constructor; cbn; lia.
   - cbn. lia.
   - apply Conc.run_reach.
+  - vm_compute. reflexivity.
   - vm_compute. reflexivity.
   - vm_compute. reflexivity.
   - vm_compute. discriminate.
